@@ -645,7 +645,11 @@ def refine_droplet(
 
         # add vmin and vrng as separate fitting parameters
         parameters = np.r_[data_flat[free], vmin, vrng]
-        bounds = np.r_[bounds[0], vmin - vrng, 0], np.r_[bounds[1], vmax, 3 * vrng]
+        # (the limits are sorted, so they also work for inverted levels, vmin > vmax)
+        bounds = (
+            np.r_[bounds[0], min(vmin - vrng, vmax), min(0, 3 * vrng)],
+            np.r_[bounds[1], max(vmin - vrng, vmax), max(0, 3 * vrng)],
+        )
 
         def _image_deviation(params):
             """Helper function evaluating the residuals."""
